@@ -98,14 +98,10 @@ theorem store_scan_start_before_prefix_witness :
 
 /-! ### listing_exact -/
 
-/-- MAIN: for every sorted database, every directory without expired entries and every request in the
-    domain (prefix xor well-split pattern, start not before the effective prefix),
-    `Filer.StreamListDirectoryEntries` delivers exactly `take limit (filter matches (filter afterStart names))`:
-    ordered, duplicate-free, complete up to the limit — through the native store loop and the
-    missed-count refill loop. -/
-theorem listing_exact_partial (k : Kind) (dk : Bytes) (db : Db) (r : Req) (hs : SortedDb db) (hwf : KeysWF k.nameOf dk db)
-    (hlive : ∀ p ∈ children k.nameOf dk db, p.2 = false) (hgood : GoodReq r)
-    (hnat : k.native = true ∨ effPrefix r = []) (hstart : r.start = [] ∨ ltB r.start (effPrefix r) = false) :
+/-- the refill loop of `StreamListDirectoryEntries` over any store path that satisfies `DirListLive` -/
+theorem stream_of_dirListLive (k : Kind) (dk : Bytes) (db : Db) (r : Req) (Ok : Bytes → Prop)
+    (hdl : DirListLive k dk (effPrefix r) db Ok) (hok : Ok r.start)
+    (hlive : ∀ p ∈ children k.nameOf dk db, p.2 = false) (hgood : GoodReq r) :
     (stream k dk db r).map (·.1) = some (specList (childNames k.nameOf dk db) r) := by
   unfold stream
   have hlen : (selected k.nameOf dk db r.start r.incl (effPrefix r)).length < (db.length + 3) * (db.length + 3) := by
@@ -116,7 +112,7 @@ theorem listing_exact_partial (k : Kind) (dk : Bytes) (db : Db) (r : Req) (hs : 
       exact List.length_filter_le _ _
     have h2 : db.length + 3 ≤ (db.length + 3) * (db.length + 3) := Nat.le_mul_of_pos_right _ (by omega)
     omega
-  rw [streamLoop_live k dk (effPrefix r) _ r.excl db hnat hs hwf hlive _ r.start r.incl r.limit hstart hlen]
+  rw [streamLoop_live' k dk (effPrefix r) _ r.excl db Ok hdl hlive _ r.start r.incl r.limit hok hlen]
   rw [refill_exact _ _ _ _ (by rw [List.length_map]; exact hlen)]
   congr 1
   unfold specList childNames selected
@@ -130,6 +126,35 @@ theorem listing_exact_partial (k : Kind) (dk : Bytes) (db : Db) (r : Req) (hs : 
   cases decide (x.1 ≠ []) <;> cases isPrefix (effPrefix r) x.1 <;> cases afterStart r.start r.incl x.1 <;>
     cases passes (effPrefix r) (splitPattern r.pattern).2 r.excl x.1 <;> rfl
 
+/-- MAIN: for every sorted database, every directory without expired entries and every request in the
+    domain (prefix xor well-split pattern, start not before the effective prefix),
+    `Filer.StreamListDirectoryEntries` delivers exactly `take limit (filter matches (filter afterStart names))`:
+    ordered, duplicate-free, complete up to the limit — through the native store loop and the
+    missed-count refill loop. -/
+theorem listing_exact_partial (k : Kind) (dk : Bytes) (db : Db) (r : Req) (hs : SortedDb db) (hwf : KeysWF k.nameOf dk db)
+    (hlive : ∀ p ∈ children k.nameOf dk db, p.2 = false) (hgood : GoodReq r)
+    (hnat : k.native = true ∨ effPrefix r = []) (hstart : r.start = [] ∨ ltB r.start (effPrefix r) = false) :
+    (stream k dk db r).map (·.1) = some (specList (childNames k.nameOf dk db) r) :=
+  stream_of_dirListLive k dk db r _ (dirListLive_native k dk (effPrefix r) db hnat hs hwf hlive) hstart hlive hgood
+
+/-- MAIN, generic path: the same for stores WITHOUT native prefix listing
+    (`FilerStoreWrapper.prefixFilterEntries`, as repaired): every start name is fine here, the
+    start-before-prefix defect does not exist on this path -/
+theorem listing_exact_generic (k : Kind) (dk : Bytes) (db : Db) (r : Req) (hgen : k.native = false) (hs : SortedDb db)
+    (hwf : KeysWF k.nameOf dk db) (hlive : ∀ p ∈ children k.nameOf dk db, p.2 = false) (hgood : GoodReq r) :
+    (stream k dk db r).map (·.1) = some (specList (childNames k.nameOf dk db) r) := by
+  by_cases hp : effPrefix r = []
+  · exact listing_exact_partial k dk db r hs hwf hlive hgood (Or.inr hp) (Or.inr (by rw [hp]; exact ltB_nil_right _))
+  · exact stream_of_dirListLive k dk db r _ (dirListLive_generic k dk (effPrefix r) db hgen hp hs hwf hlive) trivial hlive hgood
+
+/-- non-vacuity of `listing_exact_generic`: generic store, names a ab b ba bb c, prefix b, start a (before the
+    prefix!), limit 2 ⇒ [b, ba] -/
+example :
+    let dk : Bytes := [47, 100, 0]
+    let db : Db := [⟨dk ++ [97], false⟩, ⟨dk ++ [97, 98], false⟩, ⟨dk ++ [98], false⟩, ⟨dk ++ [98, 97], false⟩,
+      ⟨dk ++ [98, 98], false⟩, ⟨dk ++ [99], false⟩]
+    (stream .mem dk db ⟨[97], false, 2, [98], [], []⟩).map (·.1) = some [[98], [98, 97]] := by
+  decide +kernel
 
 /-- non-vacuity of `listing_exact_partial`: a leveldb directory {a, ab, b}, pattern `a*`, limit 1, start a (exclusive) ⇒ [ab] -/
 example :
@@ -170,6 +195,66 @@ theorem restart_after_expired_refill_witness :
     let db : Db := [⟨dk ++ [97, 97], false⟩, ⟨dk ++ [97, 97, 98], true⟩, ⟨dk ++ [98, 98, 98], false⟩]
     let r : Req := ⟨[], false, 4, [], [42, 97, 42], []⟩
     (stream .leveldb dk db r).map (·.1) = some [[97, 97], [97, 97]] := by
+  decide +kernel
+
+/-! ### expired entries -/
+
+/-- the live (not expired) non-empty child names in key order -/
+def liveChildNames (nameOf : Bytes → Bytes) (dk : Bytes) (db : Db) : List Bytes :=
+  (((children nameOf dk db).filter fun p => !p.2).map (·.1)).filter fun n => decide (n ≠ [])
+
+theorem passes_nil (pfx n : Bytes) : passes pfx [] [] n = true := by
+  unfold passes; simp
+
+/-- EXPIRED ENTRIES: for every sorted database — expired entries anywhere — and every request without
+    pattern/exclude filter (start not before the prefix), the listing skips the expired entries
+    WITHOUT shortening the page: it is `take limit` of the matching LIVE names. (With a pattern the
+    statement is false: `restart_after_expired_refill_witness`.) -/
+theorem listing_exact_expired_partial (k : Kind) (dk : Bytes) (db : Db) (r : Req) (hs : SortedDb db)
+    (hwf : ∀ e ∈ db, isPrefix dk e.key = true → e.key = dk ++ k.nameOf e.key)
+    (hpat : r.pattern = []) (hexcl : r.excl = [])
+    (hnat : k.native = true ∨ r.pfx = []) (hstart : r.start = [] ∨ ltB r.start r.pfx = false) :
+    (stream k dk db r).map (·.1) = some (specList (liveChildNames k.nameOf dk db) r) := by
+  have heff : effPrefix r = r.pfx := by unfold effPrefix; rw [hpat, splitPattern_nil]; simp
+  have hrest : (splitPattern r.pattern).2 = [] := by rw [hpat, splitPattern_nil]
+  unfold stream
+  rw [heff, hrest, hexcl]
+  obtain ⟨m, hm⟩ : ∃ m, (db.length + 3) * (db.length + 3) = m + 1 := ⟨(db.length + 3) * (db.length + 3) - 1, by
+    have : 0 < (db.length + 3) * (db.length + 3) := Nat.mul_pos (by omega) (by omega)
+    omega⟩
+  rw [hm]
+  unfold streamLoop
+  have hlen : (selected k.nameOf dk db r.start r.incl r.pfx).length < db.length + 2 := by
+    have h1 : (selected k.nameOf dk db r.start r.incl r.pfx).length ≤ db.length := by
+      unfold selected children
+      refine Nat.le_trans (List.length_filter_le _ _) ?_
+      rw [List.length_map]
+      exact List.length_filter_le _ _
+    omega
+  have hv := listValid_exact k dk r.pfx hnat (db.length + 2) db r.start r.incl r.limit hs hwf hstart hlen
+  rw [refill_exact _ _ _ _ hlen] at hv
+  generalize listValid k dk r.pfx (db.length + 2) db r.start r.incl r.limit = t at hv ⊢
+  obtain ⟨o, last, db'⟩ := t
+  simp only at hv ⊢
+  have hf : o.filter (passes r.pfx [] []) = o := by
+    rw [List.filter_eq_self]; intro n _; exact passes_nil _ _
+  rw [hf]
+  simp only [Nat.sub_self, if_true, Option.map_some, Option.some.injEq]
+  rw [hv, List.map_take]
+  unfold specList liveChildNames selected
+  congr 1
+  simp only [List.filter_map, List.filter_filter]
+  congr 1
+  apply List.filter_congr
+  intro x _
+  simp only [Function.comp, sel, matchesReq, hpat, hexcl]
+  cases x.2 <;> cases decide (x.1 ≠ []) <;> cases isPrefix r.pfx x.1 <;> cases afterStart r.start r.incl x.1 <;> simp
+
+/-- non-vacuity: names a, ab (expired), b, c; limit 2 ⇒ the page is still full: [a, b] -/
+example :
+    let dk : Bytes := [47, 100, 0]
+    let db : Db := [⟨dk ++ [97], false⟩, ⟨dk ++ [97, 98], true⟩, ⟨dk ++ [98], false⟩, ⟨dk ++ [99], false⟩]
+    (stream .leveldb dk db ⟨[], false, 2, [], [], []⟩).map (·.1) = some [[97], [98]] := by
   decide +kernel
 
 /-! ### pagination -/
